@@ -25,8 +25,13 @@ The CSV record splitting (`csv` crate) is not modelled: the model starts from re
 
 `Variant` selects between the code as it stands (`false`) and the behaviour after the planned
 repairs D1–D5 of DESIGN §2.7 (`true`); `rf` does the same for the `resolved` flag of the builder
-(`false` = only `resolve` touches it, `true` = `read_lexicon` clears it); the harness picks the
-flags by probing the source text.
+(`false` = only `resolve` touches it, `true` = `read_lexicon` clears it); `n1`, `n3`, `s4`, `s5`,
+`s6` for the connection sizes / the matrix buffer (see the fields); the harness picks the flags by
+probing the source text.
+
+The matrix buffer is modelled with its content (`Conn.cells`: the cells written, all others 0) and
+with the line buffer `ConnBuffer.line` that survives a call (`Builder.connLine`); a `read_conn`
+whose `Err` the caller ignores (`Op.connIgn`) leaves the builder in the state the code leaves it in.
 -/
 namespace Build
 
@@ -91,12 +96,32 @@ structure Variant where
   `resolve`; `true` (`fix`) = `read_lexicon` clears it, because the entries it adds may carry
   unresolved inline splits -/
   rf : Bool
+  /-- N1, `LexiconReader::new()`: `false` = connection ids are bounded by `i16::MAX` until a matrix
+  is read; `true` = by 0 (the size of the matrix that is written when none is read) -/
+  n1 : Bool
+  /-- N3, `DictBuilder::read_conn` on a USER-dictionary builder: `false` = replaces the sizes of the
+  system dictionary's matrix installed by `new_user`; `true` = leaves them alone -/
+  n3 : Bool
+  /-- S4, `ConnBuffer::read`: `false` = `matrix.resize(size, 0)` (keeps the cells of the previous
+  text); `true` = the buffer is cleared first -/
+  s4 : Bool
+  /-- S5, `ConnBuffer::read`: `false` = the first loop appends to whatever `self.line` holds (the
+  line a previous call failed on); `true` = `self.line` is cleared first -/
+  s5 : Bool
+  /-- S6, `DictBuilder::read_conn`: `false` = the sizes ids are validated against are updated only
+  when reading succeeded (a failure after the header leaves the resized matrix with the OLD
+  sizes); `true` = they follow the matrix buffer also when reading failed -/
+  s6 : Bool
 deriving DecidableEq, Repr
 
-def Variant.current : Variant := ⟨false, false, false, false, false, false⟩
-def Variant.repaired : Variant := ⟨true, true, true, true, true, true⟩
+def Variant.current : Variant := ⟨false, false, false, false, false, false, false, false, false, false, false⟩
+/-- D1–D5 and the `resolved` flag repaired (the repairs that have landed); N1, N3, S4–S6 as the code
+has them -/
+def Variant.repaired : Variant := ⟨true, true, true, true, true, true, false, false, false, false, false⟩
 /-- D1–D5 repaired, the `resolved` flag as the code has it (the tree when the flag defect was found) -/
-def Variant.staleFlag : Variant := ⟨true, true, true, true, true, false⟩
+def Variant.staleFlag : Variant := ⟨true, true, true, true, true, false, false, false, false, false, false⟩
+/-- every repair -/
+def Variant.full : Variant := ⟨true, true, true, true, true, true, true, true, true, true, true⟩
 
 /-- facts about external libraries: the code points (beyond ASCII digits) that regex `\d` accepts -/
 structure Ext where
@@ -350,14 +375,37 @@ def noneIfEqual (a b : Str) : Option Str := if a = b then none else some b
 
 /-! ## connection matrix text (`conn.rs`) -/
 
-/-- dimensions and size in bytes of the matrix buffer -/
+/-- dimensions, size in bytes and content of the matrix buffer: `cells` lists the writes
+(`index of the cell = right * num_left + left`, cost), most recent first; a cell that is not
+listed is 0 -/
 structure Conn where
   nl : Int
   nr : Int
   bytes : Nat
+  cells : List (Nat × Int)
 deriving Repr, DecidableEq
 
-def Conn.empty : Conn := ⟨0, 0, 0⟩
+def Conn.empty : Conn := ⟨0, 0, 0, []⟩
+
+/-- the cost stored in cell `i` -/
+def Conn.cell (c : Conn) (i : Nat) : Int :=
+  match c.cells.find? (fun p => p.1 == i) with
+  | some p => p.2
+  | none => 0
+
+/-- `ConnBuffer`: the matrix and `self.line` (what the last `read_line` left there) -/
+structure ConnBuf where
+  conn : Conn
+  line : Str
+deriving Repr, DecidableEq
+
+/-- `ConnBuffer::new()` -/
+def ConnBuf.new : ConnBuf := ⟨Conn.empty, []⟩
+
+/-- `self.matrix.resize(size, 0)` for `n` cells: as the code stands the first `n` cells keep what
+the previous text wrote, after the repair the buffer is cleared first -/
+def resizeCells (v : Variant) (cells : List (Nat × Int)) (n : Nat) : List (Nat × Int) :=
+  if v.s4 then [] else cells.filter (fun p => p.1 < n)
 
 /-- `parse_header`: items of the (accumulated) first non-blank line -/
 def parseHeader (line : Str) : Except ErrKind (Int × Int) :=
@@ -375,20 +423,22 @@ def parseHeader (line : Str) : Except ErrKind (Int × Int) :=
       | .error e => .error e
       | .ok r => .ok (l, r)
 
-/-- `write_elem`: `none` = panic (debug build: `usize` overflow or index out of bounds) -/
-def writeElem (v : Variant) (c : Conn) (left right : Int) : Res Unit :=
+/-- `write_elem`: the cell that is written (only the sizes of `c` are looked at), or a panic
+(debug build: `usize` overflow or index out of bounds) -/
+def writeElem (v : Variant) (c : Conn) (left right : Int) : Res Nat :=
   if v.d2 then
     if left < 0 ∨ left ≥ c.nl then .err .InvalidConnSize 0
     else if right < 0 ∨ right ≥ c.nr then .err .InvalidConnSize 0
-    else .ok ()
+    else .ok (right.toNat * c.nl.toNat + left.toNat)
   else
     -- `right as usize * num_left as usize + left as usize`, then `* 2`, then `matrix[index + 1]`
     if left < 0 ∨ right < 0 then .panic .connIndex
-    else if (right.toNat * c.nl.toNat + left.toNat) * 2 + 1 < c.bytes then .ok ()
+    else if (right.toNat * c.nl.toNat + left.toNat) * 2 + 1 < c.bytes then
+      .ok (right.toNat * c.nl.toNat + left.toNat)
     else .panic .connIndex
 
-/-- `parse_line` -/
-def parseLine (v : Variant) (c : Conn) (line : Str) : Res Unit :=
+/-- `parse_line`: the write (cell, cost) the line asks for -/
+def parseLine (v : Variant) (c : Conn) (line : Str) : Res (Nat × Int) :=
   match splitWsN 3 (trim line) with
   | [a, b, d] =>
     match eI16 a with
@@ -399,7 +449,11 @@ def parseLine (v : Variant) (c : Conn) (line : Str) : Res Unit :=
       | .ok r =>
         match eI16 d with
         | .error e => .err e 0
-        | .ok _ => writeElem v c l r
+        | .ok cost =>
+          match writeElem v c l r with
+          | .ok i => .ok (i, cost)
+          | .err k ln => .err k ln
+          | .panic w => .panic w
   | [a, b] =>
     match eI16 a with
     | .error e => .err e 0
@@ -420,43 +474,47 @@ def Res.atLine {α : Type} (n : Nat) : Res α → Res α
   | .err k _ => .err k n
   | r => r
 
-/-- the loop over the matrix lines; `n` = lines read so far.  A line that is not UTF-8 (`none`)
-makes `read_line` fail with an I/O error. -/
-def readBody (v : Variant) (c : Conn) : List (Option Str) → Nat → Res Unit
-  | [], _ => .ok ()
-  | none :: _, _ => .err .Io 0
-  | some l :: ls, n =>
-    if isBlank l then readBody v c ls (n + 1)
+/-- the loop over the matrix lines (`self.line.clear(); read_line(&mut self.line)`); `n` = lines
+read so far, `cells` = the content of the buffer, `c` = its sizes.  A line that is not UTF-8
+(`none`) makes `read_line` fail with an I/O error (the line buffer stays empty).  Returns the
+content and what is left in `self.line` together with the result. -/
+def readBody (v : Variant) (c : Conn) : List (Option Str) → Nat → List (Nat × Int) → (List (Nat × Int) × Str) × Res Unit
+  | [], _, cells => ((cells, []), .ok ())
+  | none :: _, _, cells => ((cells, []), .err .Io 0)
+  | some l :: ls, n, cells =>
+    if isBlank l then readBody v c ls (n + 1) cells
     else
       match (parseLine v c l).atLine (n + 1) with
-      | .ok () => readBody v c ls (n + 1)
-      | .err k ln => .err k ln
-      | .panic w => .panic w
+      | .ok w => readBody v c ls (n + 1) (w :: cells)
+      | .err k ln => ((cells, l), .err k ln)
+      | .panic w => ((cells, l), .panic w)
 
-/-- first loop of `read`: lines are *appended* to `self.line` until it is not blank -/
-def readHead (v : Variant) : List (Option Str) → Str → Nat → Res (Str × Nat × List (Option Str))
-  | [], _, _ => if v.d1 then .err .InvalidConnSize 0 else .panic .todoEmptyConn
-  | none :: _, _, _ => .err .Io 0
+/-- first loop of `read`: lines are *appended* to `self.line` until it is not blank; the first
+component is what `self.line` holds afterwards -/
+def readHead (v : Variant) : List (Option Str) → Str → Nat → Str × Res (Nat × List (Option Str))
+  | [], acc, _ => (acc, if v.d1 then .err .InvalidConnSize 0 else .panic .todoEmptyConn)
+  | none :: _, acc, _ => (acc, .err .Io 0)
   | some l :: ls, acc, n =>
     if isBlank (acc ++ l) then readHead v ls (acc ++ l) (n + 1)
-    else .ok (acc ++ l, n + 1, ls)
+    else (acc ++ l, .ok (n + 1, ls))
 
-/-- `ConnBuffer::read` -/
-def readConn (v : Variant) (lines : List (Option Str)) : Res Conn :=
-  match readHead v lines [] 0 with
-  | .err k l => .err k l
-  | .panic w => .panic w
-  | .ok (hd, n, rest) =>
+/-- `ConnBuffer::read`: the buffer afterwards and the result.  A failure before the `resize` leaves
+the matrix alone, a failure after it leaves the resized, partly written matrix; every failure
+leaves the line it happened on in `self.line`. -/
+def readConn (v : Variant) (buf : ConnBuf) (lines : List (Option Str)) : ConnBuf × Res Unit :=
+  match readHead v lines (if v.s5 then [] else buf.line) 0 with
+  | (hd, .err k l) => (⟨buf.conn, hd⟩, .err k l)
+  | (hd, .panic w) => (⟨buf.conn, hd⟩, .panic w)
+  | (hd, .ok (n, rest)) =>
     match parseHeader hd with
-    | .error e => .err e n
+    | .error e => (⟨buf.conn, hd⟩, .err e n)
     | .ok (l, r) =>
-      if l < 0 then .err .InvalidConnSize 0
-      else if r < 0 then .err .InvalidConnSize 0
+      if l < 0 then (⟨buf.conn, hd⟩, .err .InvalidConnSize 0)
+      else if r < 0 then (⟨buf.conn, hd⟩, .err .InvalidConnSize 0)
       else
-        match readBody v ⟨l, r, l.toNat * r.toNat * 2⟩ rest n with
-        | .ok () => .ok ⟨l, r, l.toNat * r.toNat * 2⟩
-        | .err k ln => .err k ln
-        | .panic w => .panic w
+        match readBody v ⟨l, r, l.toNat * r.toNat * 2, []⟩ rest n
+            (resizeCells v buf.conn.cells (l.toNat * r.toNat)) with
+        | ((cells, line), res) => (⟨⟨l, r, l.toNat * r.toNat * 2, cells⟩, line⟩, res)
 
 /-! ## lexicon records (`lexicon.rs`) -/
 
@@ -668,6 +726,7 @@ def resolveEntries (f : Str → Nat → Option Str → Option Nat) : List Entry 
 lexicon size for a user dictionary (`DictBuilder::new_user`) -/
 structure Base where
   pos0 : List PosKey
+  /-- sizes of the system dictionary's matrix (user dictionaries; not looked at for a system one) -/
   maxLeft : Int
   maxRight : Int
   numSystem : Option Nat
@@ -676,6 +735,11 @@ structure Base where
 def Base.system : Base := ⟨[], 32767, 32767, none, []⟩
 
 def Base.isUser (b : Base) : Bool := b.numSystem.isSome
+
+/-- the sizes connection ids are validated against before any `read_conn`: those of the system
+dictionary's matrix (`new_user`), else the default of `LexiconReader::new()` -/
+def Base.initLeft (v : Variant) (b : Base) : Int := if b.isUser then b.maxLeft else if v.n1 then 0 else 32767
+def Base.initRight (v : Variant) (b : Base) : Int := if b.isUser then b.maxRight else if v.n1 then 0 else 32767
 
 def validateWid (raw max0 max1 : Nat) : Res Unit :=
   match widDic raw with
@@ -880,6 +944,8 @@ structure Builder where
   maxRight : Int
   lex : LexState
   resolved : Bool
+  /-- `ConnBuffer.line` -/
+  connLine : Str
 
 /-- everything `compile` writes, in order -/
 def compileSteps (v : Variant) (b : Builder) (descLen trieLen : Nat) : List Step :=
@@ -913,8 +979,10 @@ deriving Repr
 
 /-- one call on the builder before `compile` -/
 inductive Op where
-  /-- `read_conn`: the matrix text as lines (`none` = the line is not UTF-8) -/
+  /-- `read_conn(..)?`: the matrix text as lines (`none` = the line is not UTF-8) -/
   | conn (lines : List (Option Str))
+  /-- `let _ = read_conn(..)`: an `Err` is ignored by the caller, who goes on using the builder -/
+  | connIgn (lines : List (Option Str))
   /-- `read_lexicon`: the records delivered by the csv reader with their line numbers, and the
   line at which the csv reader failed after them, if it did -/
   | lex (recs : List (Nat × List Str)) (csvErr : Option Nat)
@@ -954,8 +1022,8 @@ def Res.toExcept {α : Type} (s : Stage) : Res α → Except Fail α
   | .panic w => .error (.panic s w)
 
 /-- `DictBuilder::new_system()` / `new_user(system)` -/
-def Builder.init (base : Base) : Builder :=
-  ⟨base, Conn.empty, base.maxLeft, base.maxRight, ⟨base.pos0, [], 0⟩, false⟩
+def Builder.init (v : Variant) (base : Base) : Builder :=
+  ⟨base, Conn.empty, base.initLeft v, base.initRight v, ⟨base.pos0, [], 0⟩, false, []⟩
 
 /-- `read_lexicon`: the records are appended to the entries read so far (POS table and the
 `unresolved` counter go on), then the failure of the csv reader if there was one.  The `resolved`
@@ -970,15 +1038,32 @@ def readLex (v : Variant) (x : Ext) (b : Builder) (recs : List (Nat × List Str)
   | .err k l => .err k l
   | .panic w => .panic w
 
-/-- `read_conn`: replaces the matrix and overwrites the sizes ids are validated against -/
-def setConn (b : Builder) (c : Conn) : Builder := { b with conn := c, maxLeft := c.nl, maxRight := c.nr }
+/-- `set_max_conn_sizes(self.conn.left(), self.conn.right())` as `read_conn` does it: as the code
+stands for every builder, after the repair N3 not for a user-dictionary builder -/
+def syncSizes (v : Variant) (b : Builder) : Builder :=
+  if v.n3 && b.base.isUser then b else { b with maxLeft := b.conn.nl, maxRight := b.conn.nr }
+
+/-- `DictBuilder::read_conn`: the builder afterwards and the result.  The matrix buffer is whatever
+`ConnBuffer::read` left; the sizes ids are validated against follow it when reading succeeded and,
+after the repair S6, also when it failed. -/
+def readConnB (v : Variant) (b : Builder) (lines : List (Option Str)) : Builder × Res Unit :=
+  match readConn v ⟨b.conn, b.connLine⟩ lines with
+  | (buf, .ok ()) => (syncSizes v { b with conn := buf.conn, connLine := buf.line }, .ok ())
+  | (buf, r) =>
+    (if v.s6 then syncSizes v { b with conn := buf.conn, connLine := buf.line }
+      else { b with conn := buf.conn, connLine := buf.line }, r)
 
 /-- one call; the second component counts the splits `resolve` reported -/
 def runOp (v : Variant) (x : Ext) (s : Builder × Nat) : Op → Except Fail (Builder × Nat)
   | .conn lines =>
-    match (readConn v lines).toExcept .conn with
-    | .error f => .error f
-    | .ok c => .ok (setConn s.1 c, s.2)
+    match readConnB v s.1 lines with
+    | (b, .ok ()) => .ok (b, s.2)
+    | (_, .err k l) => .error (.err .conn k l)
+    | (_, .panic w) => .error (.panic .conn w)
+  | .connIgn lines =>
+    match readConnB v s.1 lines with
+    | (_, .panic w) => .error (.panic .conn w)
+    | (b, _) => .ok (b, s.2)
   | .lex recs csvErr =>
     match (readLex v x s.1 recs csvErr).toExcept .lex with
     | .error f => .error f
@@ -1004,9 +1089,20 @@ def failIdx (v : Variant) (x : Ext) : Builder × Nat → List Op → Nat → Nat
     | .error _ => i
     | .ok s' => failIdx v x s' ops (i + 1)
 
+/-- the results of the ignored `read_conn` calls, in order (only used for the answer line) -/
+def ignTrace (v : Variant) (x : Ext) : Builder × Nat → List Op → List (Res Unit)
+  | _, [] => []
+  | s, op :: ops =>
+    match runOp v x s op with
+    | .error _ => []
+    | .ok s' =>
+      match op with
+      | .connIgn lines => (readConnB v s.1 lines).2 :: ignTrace v x s' ops
+      | _ => ignTrace v x s' ops
+
 /-- everything before `compile`: the builder handed to `compile`, or the failure -/
 def prepare (v : Variant) (x : Ext) (inp : Input) : Except Fail (Builder × Nat) :=
-  runOps v x (Builder.init inp.base, 0) inp.ops
+  runOps v x (Builder.init v inp.base, 0) inp.ops
 
 /-- `compile` into a sink accepting `limit` bytes -/
 def finish (v : Variant) (p : Builder × Nat) (descLen trieLen : Nat) (limit : Option Nat) : Outcome :=
